@@ -10,8 +10,9 @@ DECIDES = ('for refine_knotvector x {curve, surface u/v, volume u/v/w}: every bl
            'of the old knots and of every refined knot - the distinct old knots of the domain, the added knots and the bisection midpoints - each '
            'repeated degree - multiplicity times: bisection counts and resulting multiplicities, no slot left at its initial fill (KR1); the refined '
            'net has one defined cell per control point of the refined vector (SK3). the unweighted-points / weights views of rational shapes cannot survive the replacement of the net (IV1 restricted to these caches). both pluggable span searches return the non-empty half-open span for parameters on knots of any multiplicity (OT1), which evaluation after refinement relies on. [SKEL, abstract objects] the whole operation interpreted on abstract curves, surfaces and volumes with index-labelled control points, ordered knots and a row helper of known effect: per requested direction and for all directions at once the net changes along the requested directions only, set_ctrlpts receives the new sizes in (u, v, w) order and every cell of the new flat list is the input cell at the mapped coordinates, the row helper receives the degree, row count and count of its direction, knot vectors of other directions are untouched, and no parameter value is used as a truth value (OPS2: spelling-independent form of AX3 / LY1 / LY2 / LY3 / GA1).')
-NOT_DECIDED = 'shape invariance itself: the alpha blending values of A5.4 and the resulting control point coordinates are numerical.'
+NOT_DECIDED = ('shape invariance itself for degrees and knot vectors outside the three enumerated nets; floating-point rounding of the alpha values.')
 TECHNIQUE = 'axis-tag dataflow, stride rule in polynomial normal form, structural gather/scatter rules, CFG reaching definitions, interpretation of the comparison skeleton over knot order types'
+DECIDES += (' [ABSTRACT INTERPRETATION, exact] KF3: helpers.knot_refinement on exact rational knots and symbolic control points returns the documented knot multiset (density 1 and 2) and exactly the net of the single insertions of its new knots.')
 
 
 def check(m, run):
